@@ -556,13 +556,13 @@ Proof.
   assert (AL : forall r, (exists v, In v (RS.VProcess :: l) /\ RS.admits v r = true) -> RS.allowed s (RS.Frame (abs_frame fr)) r = true).
   { intros r (v & Hin & Ha). apply allowed_table. rewrite V. apply existsb_exists. eauto. }
   split; [unfold RS.may_process; rewrite V; reflexivity|]. split; [|split].
-  - intros code [-> | ->]; apply AL; [exists (RS.SE c_ProtocolError) | exists (RS.SE c_EnhanceYourCalm)]; (split; [right; apply P; cbn; tauto | reflexivity]).
+  - intros code [-> | ->]; apply AL; [exists (RS.PE c_ProtocolError) | exists (RS.PE c_EnhanceYourCalm)]; (split; [right; apply P; cbn; tauto | reflexivity]).
   - intros code [-> | [-> | [-> | ->]]]; apply AL.
-    + exists (RS.SE c_ProtocolError). split; [right; apply P; cbn; tauto | reflexivity].
+    + exists (RS.CE c_ProtocolError). split; [right; apply B; cbn; tauto | reflexivity].
     + exists (RS.CE c_EnhanceYourCalm). split; [right; apply B; cbn; tauto | reflexivity].
     + exists (RS.CE c_CompressionError). split; [right; apply B; cbn; tauto | reflexivity].
     + exists (RS.CE c_InternalError). split; [right; apply B; cbn; tauto | reflexivity].
-  - apply AL. exists (RS.SE c_ProtocolError). split; [right; apply P; cbn; tauto | reflexivity].
+  - apply AL. exists (RS.CE c_ProtocolError). split; [right; apply B; cbn; tauto | reflexivity].
 Qed.
 
 Lemma K_hdr_core c s ph fr ec' c2 st l' h' :
